@@ -55,7 +55,7 @@ PROPERTIES = {
                        "override clause); evaluate()/evaluate_propositions() (real source) against the contracts of assume and "
                        "flatten: evaluate(d) == top entry == ival(self, d). ASSUMED: the flatten contract (the list contains the "
                        "node itself; in the assumed model every node with that id has its bounds). bounded stand-ins: the "
-                       "same glue end to end incl. overrides of sub-proposition ids, and repeated queries on one object",
+                       "same glue end to end incl. overrides of sub-proposition ids, and repeated queries on one object END TO END (contracts.shapes): the real recursive code on concrete tree shapes (flat, nested, shared leaf[, depth 3]) x all sign assignments with symbolic thresholds, leaf bounds and interpretations, no callee contracts: evaluate(e) and the top entry of evaluate_propositions(e) equal the truth value.",
     },
     "C04": {
         "harness_modules": ["contracts.c04", "contracts.c05"],
@@ -75,7 +75,7 @@ PROPERTIES = {
         "assumptions": S_ALL,
         "explanation": "AtLeast.negate (real source) executed symbolically per path x sign x generated_id over an abstract "
                        "child list of any length; postconditions complement/safe/id proved with the callee contract as "
-                       "induction hypothesis on compound children. (An end-to-end runtime check through evaluate() runs as well.)",
+                       "induction hypothesis on compound children. (An end-to-end runtime check through evaluate() runs as well.) END TO END (contracts.shapes): the real recursive code on concrete tree shapes (flat, nested, shared leaf[, depth 3]) x all sign assignments with symbolic thresholds, leaf bounds and interpretations, no callee contracts: negate() evaluates to the complement and keeps the id.",
     },
     "C06": {
         "harness_modules": ["contracts.assume", "contracts.flags", "contracts.shapes"],
@@ -85,7 +85,7 @@ PROPERTIES = {
         "level": "proof",
         "assumptions": S_ALL,
         "explanation": "assume/post.bounds (the reported bounds are ival) + lemma.sound (ival contains the value under every "
-                       "completion) + is_tautology / is_contradiction / equation_bounds soundness and exactness.",
+                       "completion) + is_tautology / is_contradiction / equation_bounds soundness and exactness. END TO END (contracts.shapes): the real recursive code on concrete tree shapes (flat, nested, shared leaf[, depth 3]) x all sign assignments with symbolic thresholds, leaf bounds and interpretations, no callee contracts: evaluate(partial) contains the truth value of every in-bounds completion.",
     },
     "C07": {
         "harness_modules": ["contracts.assume", "contracts.shapes"],
@@ -94,7 +94,7 @@ PROPERTIES = {
         "level": "proof",
         "assumptions": S_ALL,
         "explanation": "AtLeast.assume / variable.assume (real source) against post.c07: for every further interpretation e of "
-                       "the remaining leaves, ival(assume(d), e) == ival(self, d|e); plus the spec lemmas it uses. ADDED stand-in: rt.c07_assume_compose checks the property as stated (assume(a).evaluate(r) == evaluate(a|r)) for int / range / Bounds / constant-tuple values and sub-proposition ids.",
+                       "the remaining leaves, ival(assume(d), e) == ival(self, d|e); plus the spec lemmas it uses. ADDED stand-in: rt.c07_assume_compose checks the property as stated (assume(a).evaluate(r) == evaluate(a|r)) for int / range / Bounds / constant-tuple values and sub-proposition ids. END TO END (contracts.shapes): the real recursive code on concrete tree shapes (flat, nested, shared leaf[, depth 3]) x all sign assignments with symbolic thresholds, leaf bounds and interpretations, no callee contracts: assume(a).evaluate(r) == evaluate(a|r) for every split of the leaves.",
     },
     "C08": {
         "harness_modules": ["contracts.reduce", "contracts.shapes"],
@@ -103,7 +103,7 @@ PROPERTIES = {
         "level": "proof",
         "assumptions": S_ALL + ["lemma.refine (proved in contracts.assume) is used as a fact about compound children"],
         "explanation": "AtLeast.reduce (real source): post.bounds / post.meaning (ival(reduce(self), e) == ival(self, e) for every "
-                       "in-bounds interpretation e of leaves) / post.noconst / id / invariant, for every child count.",
+                       "in-bounds interpretation e of leaves) / post.noconst / id / invariant, for every child count. END TO END (contracts.shapes): the real recursive code on concrete tree shapes (flat, nested, shared leaf[, depth 3]) x all sign assignments with symbolic thresholds, leaf bounds and interpretations, no callee contracts: reduce().evaluate(e) == evaluate(e).",
     },
     "C09": {
         "harness_modules": ["contracts.c09"],
@@ -114,7 +114,7 @@ PROPERTIES = {
                        "variable.evaluate / reduce / equation_bounds,is_tautology,is_contradiction / the connective constructors / "
                        "to_short,to_json is executed symbolically and a heap snapshot shows that no pre-existing object, list or "
                        "module-level container is written. bounded stand-ins: deep snapshots around sequences of public calls "
-                       "(all public methods incl. evaluate/to_ge_polyhedron/solve), two-configurator cache scenario ADDED: frame obligations for StingyConfigurator.add and default_prios; stand-in rt.c09_configurator_purity (sequences of configurator calls incl. add/select).",
+                       "(all public methods incl. evaluate/to_ge_polyhedron/solve), two-configurator cache scenario ADDED: frame obligations for StingyConfigurator.add and default_prios; stand-in rt.c09_configurator_purity (sequences of configurator calls incl. add/select). ADDED: frame obligations around the end-to-end shape runs (evaluate, evaluate_propositions, negate, reduce, JSON round trip, errors, to_ge_polyhedron glue).",
     },
     "C10": {
         "harness_modules": ["contracts.c10", "contracts.c10shape"],
@@ -189,7 +189,7 @@ PROPERTIES = {
                            "to_json/from_json contracts = induction hypothesis); likewise cc.Any / cc.Xor (with and without default: "
                            "truth function, id, default and the -2 tagged branch kept) and StingyConfigurator (truth function, id, "
                            "class). bounded stand-ins: end-to-end through json.dumps/loads, Not, nested random models, "
-                           "configurators (default priorities and polyhedron equality)."},
+                           "configurators (default priorities and polyhedron equality). END TO END (contracts.shapes): the real recursive code on concrete tree shapes (flat, nested, shared leaf[, depth 3]) x all sign assignments with symbolic thresholds, leaf bounds and interpretations, no callee contracts: from_json(to_json(model)) evaluates like the model and keeps the explicit id (real writer and reader through nested trees)."},
     "C17": {"harness_modules": ["contracts.c17"], "rt": ["rt.config:c17_b64"], "level": "other",
             "assumptions": S_ALL + ["A-pickle: pickle.loads(pickle.dumps(x)) reproduces plain-__dict__ objects and ndarrays; gzip and base64 "
                                     "are inverse pairs (standard library, not under contract)"],
